@@ -190,6 +190,31 @@ _add("self_loop", """
   exit:
     return 0, 32
 """)
+_add("phi_swap_loop", """
+  runtime:
+    %n = calldataload 0
+    %x = calldataload 32
+    %y = calldataload 64
+    %z = calldataload 96
+    jmp @pre
+  pre:
+    jmp @head
+  head:
+    %i = phi @pre, %z, @latch, %i2
+    %a = phi @pre, %x, @latch, %b
+    %b = phi @pre, %y, @latch, %a
+    %c = lt %i, %n
+    jnz %c, @body, @exit
+  body:
+    %i2 = add %i, 1
+    jmp @latch
+  latch:
+    jmp @head
+  exit:
+    mstore 0, %a
+    mstore 32, %b
+    return 0, 64
+""")
 _add("jnz_equal_targets", """
   runtime:
     %c = calldataload 0
